@@ -41,6 +41,7 @@ type C10Scn struct {
 	InputOK    bool   // the input can be processed
 	ExpectOK   bool   // the fault-free run is expected to succeed
 	RecordOnly bool   // judged on the fault-free run only (the family of structural cut points)
+	Extra      []string // further files of a multi-file run (another member and its output): may appear, change or vanish
 	EitherExit bool   // the statement does not say whether the fault-free run succeeds (a stale temporary file is in the way): both exit classes are judged by their own rules
 }
 
@@ -234,6 +235,14 @@ func c10Scenarios() []C10Scn {
 	add(C10Scn{Name: "z-lzma-f-stale-temp", Args: []string{"-F", "lzma", "-f", "file"}, Files: []c10File{f("file", "plain:small"), f("file.lzma.compress", "plain:big")}, Input: "file", Target: "file.lzma", Format: "lzma", Plain: "small", InputOK: true, ExpectOK: true, EitherExit: true})
 	add(C10Scn{Name: "d-xz-stale-temp", Args: []string{"-d", "file.xz"}, Files: []c10File{f("file.xz", "xz:small"), f("file.decompress", "plain:big")}, Input: "file.xz", Target: "file", Decompress: true, Format: "xz", Plain: "small", InputOK: true, ExpectOK: true, EitherExit: true})
 	add(C10Scn{Name: "d-xz-kf-stale-temp", Args: []string{"-dkf", "file.xz"}, Files: []c10File{f("file.xz", "xz:small"), f("file.decompress", "xz:big")}, Input: "file.xz", Target: "file", Decompress: true, Format: "xz", Keep: true, Plain: "small", InputOK: true, ExpectOK: true, EitherExit: true})
+	// multi-file runs: an earlier member succeeds, the judged member cannot be processed - nothing an
+	// earlier member leaves behind (success flags, options, buffers) may touch the later one's input
+	add(C10Scn{Name: "z-two-files-second-target-exists", Args: []string{"first", "file"}, Files: []c10File{f("first", "plain:other"), f("file", "plain:small"), f("file.xz", "plain:other")},
+		Input: "file", Target: "file.xz", Format: "xz", Plain: "small", InputOK: true, ExpectOK: false, Extra: []string{"first", "first.xz", "first.xz.compress"}})
+	add(C10Scn{Name: "d-two-files-second-truncated", Args: []string{"-d", "good.xz", "data.xz"}, Files: []c10File{f("good.xz", "xz:small"), f("data.xz", "xz-trunc:big")},
+		Input: "data.xz", Target: "data", Decompress: true, Format: "xz", Plain: "big", InputOK: false, ExpectOK: false, Extra: []string{"good.xz", "good", "good.decompress"}})
+	add(C10Scn{Name: "d-two-files-second-unknown-suffix", Args: []string{"-d", "good.xz", "f.dat"}, Files: []c10File{f("good.xz", "xz:small"), f("f.dat", "xz:small")},
+		Input: "f.dat", Decompress: true, Format: "xz", Plain: "small", InputOK: false, ExpectOK: false, Extra: []string{"good.xz", "good", "good.decompress"}})
 	add(C10Scn{Name: "d-bare-suffix", Args: []string{"-d", ".xz"}, Files: []c10File{f(".xz", "xz:small")}, Input: ".xz", Decompress: true, Format: "xz", Plain: "small", InputOK: false, ExpectOK: false})
 	return out
 }
@@ -467,7 +476,13 @@ func (e *c10Env) judge(r *core.Run, s C10Scn, c C10Case, rec []sysx.Call) {
 		outcome = "temp-left"
 	}
 	for n := range st {
-		if n != s.Input && n != s.Target && n != tmpLeft && s.initial(n) == nil {
+		extra := false
+		for _, x := range s.Extra {
+			if x == n {
+				extra = true
+			}
+		}
+		if n != s.Input && n != s.Target && n != tmpLeft && s.initial(n) == nil && !extra {
 			r.Violate(cs, site+" → unexpected-file@"+phase, desc, observed, "only input/target names")
 		}
 	}
